@@ -2257,6 +2257,11 @@ XPathProcessorImpl::LocationPath()
     {
         RelativeLocationPath();
     }
+    else if(fromRoot == false)
+    {
+        // The expression ended where a location path has to start.
+        error(XalanMessages::ExpectedNodeTest);
+    }
     else if(tokenIs(XalanUnicode::charLeftSquareBracket) == true)
     {
         // '/' alone is not a step and is not a PrimaryExpr, so
